@@ -65,7 +65,8 @@ def run_unit(unit, snapshot, workdir, tier):
     res["checker_cmd"] = "kani <extracted %s.rs> -Z function-contracts -Z stubbing --output-format terse -j %d --harness <%d harnesses>" % (name, jobs, len(sel))
     kani_be.fill_unit(unit, res, per, rc, out, tier)
     res["solver_s"] = sum(b["time"] for b in per.values())
-    failed_h = sorted(set(o["harness"] for o in res["obligations"] if o["status"] == "failed"))
+    # harnesses whose failure is a listed known finding are not replayed again on every run
+    failed_h = sorted(set(o["harness"] for o in res["obligations"] if o["status"] == "failed" and o["harness"] not in unit.get("known_failing_harnesses", [])))
     for h in failed_h[:6]:
         tests = playback(path, h, workdir)
         for o in res["obligations"]:
